@@ -103,7 +103,12 @@ class Agent:
                     break
         flat = [vb for row in rows for vb in row]
         cut = pol.get("cut", 0)
-        if cut and len(rows) > 1:
+        if cut and pol.get("deep") and flat:
+            # RFC 3416 4.2.3: trailing bindings removed to fit the message size; the number removed
+            # "has no relationship to N, M or R" — it may reach into the first repetition; at least
+            # one binding is kept
+            flat = flat[: max(1, len(flat) - cut)]
+        elif cut and len(rows) > 1:
             # a partial last row: drop up to `cut` trailing bindings, never into the first row
             keep = max(len(rows[0]), len(flat) - cut)
             flat = flat[:keep]
